@@ -1,11 +1,185 @@
 import PyresampleModel.Model.Core
 
 /-
-  C08 — model (stub: not built yet).
+  C08 — model of the EWA resampler's logic (`pyresample/ewa`), over exact rationals.
+
+  * `ewa.ll2cr` + `_ll2cr.ll2cr_static`: grid parameters from the area, column/row of a projected point, the
+    "within one cell of the grid" count                        → `ll2crParams`, `ll2crPoint`, `inGrid`, `countIn`
+  * `compute_ewa`: the clipped index interval a swath pixel touches on one axis            → `axisCells`
+  * `compute_ewa(_single)` accumulation per grid cell (average and maximum-weight mode)     → `accAvg`, `accMax`
+  * `write_grid_image`: threshold, division, fill (float and int8 outputs)                  → `writeCell`, `writeCellI8`
+  * `dask_ewa._combine_fornav`: reduction of per-input-chunk (weights, accums)               → `combineAvg`, `combineMax`
+
+  The Gaussian weight of a swath pixel on a grid cell (ellipse parameters, `exp` table, float32) is a
+  PARAMETER: a cell is described by the list of its contributions `(weight, value or invalid)` in scan order.
 -/
 namespace PyresampleModel.C08
 
+/-! ### ll2cr -/
+
+/-- an area: extent (x_ll, y_ll, x_ur, y_ur) and shape -/
+structure AreaQ where
+  x0 : Rat
+  y0 : Rat
+  x1 : Rat
+  y1 : Rat
+  w : Nat
+  h : Nat
+deriving Repr
+
+def AreaQ.psx (a : AreaQ) : Rat := (a.x1 - a.x0) / a.w
+def AreaQ.psy (a : AreaQ) : Rat := (a.y1 - a.y0) / a.h
+
+/-- the area's own fractional column / row of a projection coordinate
+(`AreaDefinition.get_array_coordinates_from_projection_coordinates`) -/
+def areaCol (a : AreaQ) (x : Rat) : Rat := (x - (a.x0 + a.psx / 2)) / a.psx
+def areaRow (a : AreaQ) (y : Rat) : Rat := (y - (a.y1 - a.psy / 2)) / (-a.psy)
+
+/-- `ewa.ll2cr`: (cell_width, cell_height, origin_x, origin_y) handed to `ll2cr_static` -/
+def ll2crParams (a : AreaQ) : Rat × Rat × Rat × Rat :=
+  let cw := a.psx
+  let ch := -a.psy
+  (cw, ch, a.x0 + cw / 2, a.y1 + ch / 2)
+
+/-- `ll2cr_static` on one point; `none` = the projection failed (x ≥ 1e30) → fill -/
+def ll2crPoint (p : Rat × Rat × Rat × Rat) (pt : Option (Rat × Rat)) : Option (Rat × Rat) :=
+  pt.map (fun xy => ((xy.1 - p.2.2.1) / p.1, (xy.2 - p.2.2.2) / p.2.1))
+
+def inGrid (w h : Nat) (cr : Rat × Rat) : Bool :=
+  decide (-1 ≤ cr.1) && decide (cr.1 ≤ (w : Rat) + 1) && decide (-1 ≤ cr.2) && decide (cr.2 ≤ (h : Rat) + 1)
+
+def countIn (w h : Nat) (pts : List (Option (Rat × Rat))) : Nat :=
+  (pts.filter (fun o => match o with | some cr => inGrid w h cr | none => false)).length
+
+/-! ### footprint on one axis -/
+
+/-- `compute_ewa`: the grid indices `iu1 .. iu2` a pixel at fractional position `u0` with half-width `del` touches on an axis
+of `n` cells: skipped when `u0 < -del`, `(int)` truncation toward zero, clipping to the grid; `none` = touches nothing -/
+def axisCells (u0 del : Rat) (n : Nat) : Option (Int × Int) :=
+  if u0 < -del then none else
+  let i1 := pyTrunc (u0 - del)
+  let i2 := pyTrunc (u0 + del)
+  let i1 := if i1 < 0 then 0 else i1
+  let i2 := if i2 ≥ (n : Int) then (n : Int) - 1 else i2
+  if i1 < (n : Int) ∧ i2 ≥ 0 ∧ i1 ≤ i2 then some (i1, i2) else none
+
+def touches (u0 del : Rat) (n : Nat) (c : Int) : Bool :=
+  match axisCells u0 del n with
+  | some (i1, i2) => decide (i1 ≤ c) && decide (c ≤ i2)
+  | none => false
+
+/-! ### accumulation per grid cell -/
+
+/-- one contribution to a grid cell: the weight and the swath value (`none` = fill value or NaN: skipped) -/
+abbrev Contrib := Rat × Option Rat
+
+def stepAvg (s : Rat × Rat) (c : Contrib) : Rat × Rat :=
+  match c.2 with
+  | some v => (s.1 + c.1, s.2 + v * c.1)
+  | none => s
+
+def stepMax (s : Rat × Rat) (c : Contrib) : Rat × Rat :=
+  match c.2 with
+  | some v => if c.1 > s.1 then (c.1, v) else s
+  | none => s
+
+/-- (weight sum, accumulated value·weight) -/
+def accAvg (cs : List Contrib) : Rat × Rat := cs.foldl stepAvg (0, 0)
+/-- (largest weight so far, value of the first contribution that reached it) -/
+def accMax (cs : List Contrib) : Rat × Rat := cs.foldl stepMax (0, 0)
+
+def EPS : Rat := 1 / 100000000
+
+/-- `write_grid_image` for float outputs: `none` = fill -/
+def writeCell (mwm : Bool) (sumMin : Rat) (s : Rat × Rat) : Option Rat :=
+  let sm := if sumMin ≤ 0 then EPS else sumMin
+  if s.1 < sm then none
+  else if mwm then some s.2
+  else some (s.2 / s.1)
+
+/-- `write_grid_image` + `write_grid_pixel` for int8 outputs: round half away from zero, saturate -/
+def writeCellI8 (mwm : Bool) (sumMin : Rat) (s : Rat × Rat) : Option Int :=
+  let sm := if sumMin ≤ 0 then EPS else sumMin
+  if s.1 < sm then none
+  else
+    let chanf : Rat := if mwm then s.2 else if s.2 ≥ 0 then s.2 / s.1 + 1/2 else s.2 / s.1 - 1/2
+    if chanf < -128 then some (-128) else if chanf > 127 then some 127 else some (pyTrunc chanf)
+
+/-! ### dask reduction -/
+
+/-- `_combine_fornav`, average mode: element-wise sums of the per-chunk (weights, accums) -/
+def combineAvg (parts : List (Rat × Rat)) : Rat × Rat :=
+  parts.foldl (fun s p => (s.1 + p.1, s.2 + p.2)) (0, 0)
+
+/-- `_combine_fornav`, maximum-weight mode: `np.argmax` over the chunk axis = the FIRST chunk holding the largest weight -/
+def combineMax (parts : List (Rat × Rat)) : Rat × Rat :=
+  parts.foldl (fun s p => if p.1 > s.1 then p else s) (0, 0)
+
+/-! ### driver -/
+open Wire
+
+def contribs? : Nat → List String → Option (List Contrib)
+  | 0, [] => some []
+  | n + 1, w :: v :: t => do
+    let w ← rat? w
+    let tl ← contribs? n t
+    if v = "nan" then some ((w, none) :: tl) else
+    let v ← rat? v
+    some ((w, some v) :: tl)
+  | _, _ => none
+
+def pairs? : Nat → List String → Option (List (Rat × Rat))
+  | 0, [] => some []
+  | n + 1, a :: b :: t => do
+    let a ← rat? a; let b ← rat? b
+    let tl ← pairs? n t
+    some ((a, b) :: tl)
+  | _, _ => none
+
+def optPts? : Nat → List String → Option (List (Option (Rat × Rat)))
+  | 0, [] => some []
+  | n + 1, a :: b :: t => do
+    let tl ← optPts? n t
+    if a = "inf" || b = "inf" then some (none :: tl) else
+    let a ← rat? a; let b ← rat? b
+    some (some (a, b) :: tl)
+  | _, _ => none
+
+def showOptRat : Option Rat → String
+  | some q => showRat q
+  | none => "fill"
+
 def handle : List String → Option String
+  | "ll2cr" :: x0 :: y0 :: x1 :: y1 :: w :: h :: n :: rest => do
+    -- ll2cr x0 y0 x1 y1 w h n (x y | inf inf)*n -> cw ch ox oy count (col,row | fill)*
+    let x0 ← rat? x0; let y0 ← rat? y0; let x1 ← rat? x1; let y1 ← rat? y1
+    let w ← nat? w; let h ← nat? h; let n ← nat? n
+    let pts ← optPts? n rest
+    let a : AreaQ := ⟨x0, y0, x1, y1, w, h⟩
+    let p := ll2crParams a
+    let crs := pts.map (ll2crPoint p)
+    let shown := crs.map (fun o => match o with | some cr => showRat cr.1 ++ "," ++ showRat cr.2 | none => "fill")
+    some (" ".intercalate ([showRat p.1, showRat p.2.1, showRat p.2.2.1, showRat p.2.2.2, toString (countIn w h crs)] ++ shown))
+  | "cell" :: mwm :: sumMin :: k :: rest => do
+    -- cell mwm sumMin k (w v|nan)*k -> W A out
+    let mwm ← bool? mwm; let sumMin ← rat? sumMin; let k ← nat? k
+    let cs ← contribs? k rest
+    let s := if mwm then accMax cs else accAvg cs
+    some s!"{showRat s.1} {showRat s.2} {showOptRat (writeCell mwm sumMin s)}"
+  | ["write", mwm, sumMin, w, a] => do
+    let mwm ← bool? mwm; let sumMin ← rat? sumMin; let w ← rat? w; let a ← rat? a
+    some (showOptRat (writeCell mwm sumMin (w, a)))
+  | ["writei8", mwm, sumMin, w, a] => do
+    let mwm ← bool? mwm; let sumMin ← rat? sumMin; let w ← rat? w; let a ← rat? a
+    some (match writeCellI8 mwm sumMin (w, a) with | some i => toString i | none => "fill")
+  | "combine" :: mwm :: k :: rest => do
+    let mwm ← bool? mwm; let k ← nat? k
+    let ps ← pairs? k rest
+    let s := if mwm then combineMax ps else combineAvg ps
+    some s!"{showRat s.1} {showRat s.2}"
+  | ["axis", u0, del, n] => do
+    let u0 ← rat? u0; let del ← rat? del; let n ← nat? n
+    some (match axisCells u0 del n with | some (a, b) => s!"{a} {b}" | none => "none")
   | _ => none
 
 end PyresampleModel.C08
